@@ -26,6 +26,8 @@ VARIABLES file,        \* [c |-> content, m |-> mtime]
           steps, lastPolled, hist
 vars == <<file, rl, active, rate, alive, swaps, ret, steps, lastPolled, hist>>
 Valid(v, r) == [k |-> "valid", v |-> v, r |-> r]
+\* (a version is a text: two versions are different texts, however little they differ - in the YAML rendering of the
+\* replay, versions v and v + 2 differ in nothing but a line break at the very end of the file, which is part of a value)
 \* The most verbose level of version v's configuration (numbered as in LevelGate.tla: 3 = info, 5 = trace).  The
 \* root is at info in every version; one logger is at trace in odd versions and at warn in even ones.  Once a
 \* version is applied the process-wide maximum of the log facade is this value - whatever it was before, and
